@@ -403,4 +403,29 @@ def run (cls : Classifier) (adv : Nat → Nat → Obs) : Nat → Sys → List Op
 /-- no observer installed anywhere -/
 def noObs : Nat → Nat → Obs := fun _ _ => Obs.silent
 
+/-- Two overlapping calls `a` and `b` on the colony: `a` is preempted just before its `k`-th acquisition of a store lock and
+    `b` runs to completion there (`b` wins the race for the lock); if `a` never makes a `k`-th acquisition, `b` runs after
+    `a`.  Every call of the store takes its lock once, around everything it does; `transfer_to` takes two: its own lock
+    around check + deduction (`withdraw`), then the peer's inside `other.regenerate` (`deposit`), skipped when the check
+    fails.  Hence: `k = 1`: `b`, then `a`;  `k = 2` and `a` a transfer whose withdrawal succeeds: `withdraw`, `b`, `deposit`
+    (the energy is in flight while `b` runs);  otherwise `a`, then `b`.  `o1`, `o2`: the observers during the first and the
+    second of the two calls that run under a lock with `_update_state` (withdraw never notifies).
+    Returns the colony, what `a` returned, what `b` returned. -/
+def race (cls : Classifier) (o1 o2 : Nat → Obs) (sys : Sys) (k : Nat) (a b : Op) : Sys × Ret × Ret :=
+  if k = 1 then
+    ((step cls o2 (step cls o1 sys b).1 a).1, (step cls o2 (step cls o1 sys b).1 a).2, (step cls o1 sys b).2)
+  else
+    match a with
+    | .transfer i j n cur =>
+      match sys[i]?, sys[j]? with
+      | some s, some _ =>
+        if (withdraw s n cur).2 = true ∧ k = 2 then
+          let rb := step cls o1 (sys.set i (withdraw s n cur).1) b
+          let rd := step cls o2 rb.1 (.regenerate j n cur)
+          (rd.1, (match rd.2 with | .raised e => .raised e | _ => .bool true), rb.2)
+        else
+          ((step cls o2 (step cls o1 sys a).1 b).1, (step cls o1 sys a).2, (step cls o2 (step cls o1 sys a).1 b).2)
+      | _, _ => ((step cls o2 (step cls o1 sys a).1 b).1, (step cls o1 sys a).2, (step cls o2 (step cls o1 sys a).1 b).2)
+    | _ => ((step cls o2 (step cls o1 sys a).1 b).1, (step cls o1 sys a).2, (step cls o2 (step cls o1 sys a).1 b).2)
+
 end Operon.Atp
